@@ -2,12 +2,36 @@ import GqlVerif.Model.Codegen
 import GqlVerif.Props.C17
 import GqlVerif.Props.C11
 /-!
-# C02 (closure part) and C17 (fuel of the code-generation walks is never exhausted)
+# C02 (closure part) and C17 (the fuel of the code-generation walks is never exhausted)
 
-The generated module mentions schema types by name; `allUsedTypes` decides for which of them an
-item is emitted.  This file proves that the set computed by `allUsedTypes` (a DFS with visited sets
-and explicit fuel) is really *closed*, that the fuel handed to each walk is never exhausted, and
-that every type name mentioned by an emitted input struct is defined by an emitted item.
+The generated module mentions schema types by name; `allUsedTypes` decides for which of them an item
+is emitted.  This file proves, for every schema / query / operation / options / case functions, that
+the set computed by `allUsedTypes` (a DFS with visited sets and explicit fuel) is *closed*, that the
+fuel handed to each guarded walk is never exhausted, and that every type name mentioned by the emitted
+input structs and the `Variables` struct is defined by an emitted item.  Core Lean only.
+
+* **A** `used_inputs_closed` — under `OutputOnly s q` (decidable: no output field has an input-object
+  type, no inline fragment is conditioned on one) the used set is closed under input fields.
+  `used_inputs_closed_varPhase` is the hypothesis-free form (inputs inserted by the variables phase).
+  Fuel: `usedInputIds_spec`, `collectVar_spec` (`#inputs + 1` always exceeds the number of unvisited
+  input ids).  `outputOnly_needed`: without the hypothesis the statement is false.
+* **B** `variable_types_used` — the type of every variable of the operation is in the used set.
+* **C** `selected_types_used` (+ `selected_field_types_used`, `spread_fragments_used`,
+  `inline_conditions_used`) — every selection `Reach`able from the root selection set (through fields,
+  inline fragments and spreads, any depth) has its type in `u.types` / its fragment in `u.fragments`.
+  Fuel: `collectSel_spec` (need = depth of the selection + (depth bound + 1) per unvisited fragment) and
+  `walkFuel_sufficient` (`walkFuel q` covers that need — exact, no hypothesis).
+* **D** `input_item_mentions_defined`, `inputItems_mentions_defined` — under `normalization = none`,
+  `OutputOnly`, `InputFieldsRelevant` and the naming hypothesis (`keyword_replace` is the identity on
+  input-type names) every type name mentioned by an emitted input struct / `@oneOf` enum is a built-in,
+  an extern enum or the name of an item of `scalarItems` / `enumItems` / `inputItems` of the same used
+  set.  `keyword_input_name_mismatch`: the naming hypothesis is needed (input type called `type`).
+  **D′** `variables_mentions_defined` — the same for the `Variables` struct and `default_*` functions.
+* **E** `responseItems_fuel_sufficient`, `fragmentItems_fuel_sufficient` — with `calcFuel` the `calc*`
+  block never returns an `unmodelled` (out of fuel) error, fragment spreads included
+  (`calc_clean`: simultaneous induction over the four mutual functions).
+  `responseForQuery_fuel` — the only fuel `responseForQuery` can exhaust is the model's nesting bound
+  for default-value literals.
 -/
 namespace GqlVerif
 namespace C02
@@ -1654,6 +1678,337 @@ theorem fragmentItems_fuel_sufficient (c : Ctx) (fid : Nat) :
   left
   simp only [List.mem_append, List.mem_map]
   exact .inl ⟨f, hmem, rfl⟩
+
+
+
+
+/-! ## D′. the `Variables` struct (and its default-value functions) mentions only defined names -/
+
+theorem filterMapM_ok_mem {ε α β : Type} {f : α → Except ε (Option β)} :
+    ∀ {l : List α} {r : List β}, l.filterMapM f = .ok r → ∀ y ∈ r, ∃ x ∈ l, f x = .ok (some y)
+  | [], r, h, y, hy => by
+    simp only [List.filterMapM_nil, pure, Except.pure, Except.ok.injEq] at h
+    subst h; simp at hy
+  | a :: l, r, h, y, hy => by
+    rw [List.filterMapM_cons] at h
+    obtain ⟨o, ho, h⟩ := bind_ok h
+    cases o with
+    | none =>
+      obtain ⟨x, hx, hfx⟩ := filterMapM_ok_mem (l := l) h y hy
+      exact ⟨x, by simp [hx], hfx⟩
+    | some b =>
+      simp only [] at h
+      obtain ⟨r', hr', h⟩ := bind_ok h
+      simp only [pure, Except.pure, Except.ok.injEq] at h
+      subst h
+      simp only [List.mem_cons] at hy
+      rcases hy with rfl | hy
+      · exact ⟨a, by simp, ho⟩
+      · obtain ⟨x, hx, hfx⟩ := filterMapM_ok_mem hr' y hy
+        exact ⟨x, by simp [hx], hfx⟩
+
+theorem variableType_leaf {c : Ctx} {v : RVariable} {t : RTy} (h : variableType c v = .ok t) :
+    ∃ tn, c.s.typeName v.ty.id = .ok tn ∧ leaf t = keywordReplace (c.o.normalization.fieldType c.cs tn) := by
+  unfold variableType at h
+  obtain ⟨tn, htn, h⟩ := bind_ok h
+  exact ⟨tn, htn, by simpa [leaf] using decorateType_leaf h⟩
+
+/-- every mention of an item of `variablesItems` is the leaf of the `variableType` of a variable -/
+theorem variablesItems_mentions {c : Ctx} {op : Nat} {items : List Item} (h : variablesItems c op = .ok items) :
+    ∀ item ∈ items, ∀ n ∈ itemMentions item,
+      ∃ v ∈ c.q.opVariables op, ∃ t, variableType c v = .ok t ∧ leaf t = n := by
+  unfold variablesItems at h
+  simp only [] at h
+  split at h
+  · simp only [pure, Except.pure, Except.ok.injEq] at h
+    subst h
+    intro item hitem n hn
+    simp only [List.mem_singleton] at hitem
+    subst hitem
+    simp [itemMentions] at hn
+  · obtain ⟨fs, hfs, h⟩ := bind_ok h
+    obtain ⟨dfl, hdfl, h⟩ := bind_ok h
+    simp only [pure, Except.pure, Except.ok.injEq] at h
+    subst h
+    intro item hitem n hn
+    simp only [List.mem_cons, List.not_mem_nil, or_false] at hitem
+    rcases hitem with rfl | rfl
+    · simp only [itemMentions, List.mem_map] at hn
+      obtain ⟨f, hf, hfn⟩ := hn
+      obtain ⟨v, hv, hfv⟩ := mapM_ok_mem hfs f hf
+      obtain ⟨t, ht, hfv⟩ := bind_ok hfv
+      simp only [pure, Except.pure, Except.ok.injEq] at hfv
+      subst hfv
+      exact ⟨v, hv, t, ht, hfn⟩
+    · simp only [itemMentions, List.mem_map] at hn
+      obtain ⟨p, hp, hpn⟩ := hn
+      obtain ⟨v, hv, hfv⟩ := filterMapM_ok_mem hdfl p hp
+      split at hfv
+      · simp [pure, Except.pure] at hfv
+      · obtain ⟨t, ht, hfv⟩ := bind_ok hfv
+        obtain ⟨_, _, hfv⟩ := bind_ok hfv
+        simp only [pure, Except.pure, Except.ok.injEq, Option.some.injEq] at hfv
+        subst hfv
+        exact ⟨v, hv, t, ht, hpn⟩
+
+/-- **D′**: under `normalization = none`, every type name mentioned by the `Variables` struct and by
+    the `default_*` functions is defined.  Hypotheses: the variables have input / enum / scalar types
+    (GraphQL validation), and `keyword_replace` is the identity on the names of the schema's scalars
+    and enums (the mention is escaped here, the enum / scalar declarations are not; for input types both
+    sides are escaped, so no hypothesis is needed for them). -/
+theorem variables_mentions_defined (c : Ctx) (op : Nat) (u : UsedTypes) (S E I items : List Item)
+    (hnorm : c.o.normalization = .none)
+    (hkwS : ∀ n ∈ c.s.scalars, keywordReplace n = n)
+    (hkwE : ∀ e ∈ c.s.enums, keywordReplace e.name = e.name)
+    (hvars : ∀ v ∈ c.q.opVariables op, Relevant v.ty.id)
+    (hu : allUsedTypes c.s c.q op = .ok u)
+    (hS : scalarItems c u = .ok S) (hE : enumItems c u = .ok E) (hI : inputItems c u = .ok I)
+    (hV : variablesItems c op = .ok items) :
+    ∀ item ∈ items, ∀ n ∈ itemMentions item, Defined c S E I n := by
+  intro item hitem n hn
+  obtain ⟨v, hv, t, ht, hleaf⟩ := variablesItems_mentions hV item hitem n hn
+  obtain ⟨tn, htn, hleaf'⟩ := variableType_leaf ht
+  rw [hnorm, fieldType_none] at hleaf'
+  have hn' : n = keywordReplace tn := by rw [← hleaf, hleaf']
+  subst hn'
+  have hrel := hvars v hv
+  have hused : v.ty.id ∈ u.types := variable_types_used c.s c.q op u hu v hv hrel
+  cases hid : v.ty.id with
+  | scalar k =>
+    rw [hid] at htn hused
+    have hk := getScalar_ok htn
+    rw [hkwS tn (List.mem_of_getElem? hk)]
+    by_cases hd : tn ∈ Schema.defaultScalars
+    · exact .inl hd
+    · obtain ⟨it, hit, hname⟩ := scalarItems_defines hS hused hk hd
+      refine .inr (.inr ⟨it, by simp [hit], ?_⟩)
+      rw [hname, hnorm]; rfl
+  | «enum» k =>
+    rw [hid] at htn hused
+    simp only [Schema.typeName] at htn
+    cases hge : c.s.getEnum k with
+    | error e => simp [hge, Functor.map, Except.map] at htn
+    | ok e =>
+      simp only [hge, Functor.map, Except.map, Except.ok.injEq] at htn
+      have hk := getEnum_ok hge
+      rw [← htn, hkwE e (List.mem_of_getElem? hk)]
+      by_cases hx : e.name ∈ c.o.externEnums
+      · exact .inr (.inl hx)
+      · obtain ⟨it, hit, hname⟩ := enumItems_defines hE hused hk hx
+        refine .inr (.inr ⟨it, by simp [hit], ?_⟩)
+        rw [hname, hnorm]; rfl
+  | input k =>
+    rw [hid] at htn hused
+    simp only [Schema.typeName] at htn
+    cases hge : c.s.getInput k with
+    | error e => simp [hge, Functor.map, Except.map] at htn
+    | ok i2 =>
+      simp only [hge, Functor.map, Except.map, Except.ok.injEq] at htn
+      have hk := getInput_ok hge
+      obtain ⟨it, hit, hfit⟩ := inputItems_defines hI hused hk
+      refine .inr (.inr ⟨it, by simp [hit], ?_⟩)
+      rw [inputItem_name hfit, hnorm, ← htn]
+      rfl
+  | object k => rw [hid] at hrel; exact absurd hrel (by simp [Relevant])
+  | interface k => rw [hid] at hrel; exact absurd hrel (by simp [Relevant])
+  | union k => rw [hid] at hrel; exact absurd hrel (by simp [Relevant])
+
+
+
+
+/-- the hypotheses of D′ hold on the sample schema / query -/
+example : (∀ n ∈ goodSchema.scalars, keywordReplace n = n) ∧
+    (∀ e ∈ goodSchema.enums, keywordReplace e.name = e.name) ∧
+    (∀ v ∈ goodQuery.opVariables 0, Relevant v.ty.id) := by
+  refine ⟨fun n hn => ?_, fun e he => ?_, fun v hv => ?_⟩
+  · rw [C11.keywordReplace_spec, if_neg]
+    revert n; decide +kernel
+  · rw [C11.keywordReplace_spec, if_neg]
+    revert e; decide +kernel
+  · have : v ∈ [goodQuery.variables[0]] := hv
+    simp only [List.mem_singleton] at this
+    subst this
+    trivial
+
+/-! ## C17 at the level of the whole module: which fuel can `responseForQuery` exhaust? -/
+
+/-- the only "out of fuel" result allowed is the depth bound of default-value literals -/
+def LitOnly {α} (r : Outcome α) : Prop := ∀ w, r = .error (.unmodelled w) → w = "literal fuel"
+
+theorem Clean.litOnly {α} {r : Outcome α} (h : Clean r) : LitOnly r := fun w hw => absurd hw (h w)
+
+theorem LitOnly.bind {α β} {x : Outcome α} {f : α → Outcome β} (hx : LitOnly x)
+    (hf : ∀ a, x = .ok a → LitOnly (f a)) : LitOnly (x >>= f) := by
+  cases x with
+  | error e => intro w h; (change Except.error e = _ at h; cases h; exact hx w rfl)
+  | ok a => exact hf a rfl
+
+theorem litOnly_forM {α} (f : α → Outcome PUnit) (hf : ∀ x, LitOnly (f x)) :
+    ∀ (l : List α), LitOnly (l.forM f)
+  | [] => by simp only [List.forM]; exact (Clean.pure _).litOnly
+  | a :: l => by
+    simp only [List.forM]
+    exact LitOnly.bind (hf a) (fun _ _ => litOnly_forM f hf l)
+
+theorem litOnly_mapM {α β} (f : α → Outcome β) (hf : ∀ x, LitOnly (f x)) :
+    ∀ (l : List α), LitOnly (l.mapM f)
+  | [] => by rw [List.mapM_nil]; exact (Clean.pure _).litOnly
+  | a :: l => by
+    rw [List.mapM_cons]
+    exact LitOnly.bind (hf a) (fun _ _ => LitOnly.bind (litOnly_mapM f hf l) (fun _ _ => (Clean.pure _).litOnly))
+
+theorem litOnly_filterMapM {α β} (f : α → Outcome (Option β)) (hf : ∀ x, LitOnly (f x)) :
+    ∀ (l : List α), LitOnly (l.filterMapM f)
+  | [] => by rw [List.filterMapM_nil]; exact (Clean.pure _).litOnly
+  | a :: l => by
+    rw [List.filterMapM_cons]
+    refine LitOnly.bind (hf a) (fun o _ => ?_)
+    cases o with
+    | none => exact litOnly_filterMapM f hf l
+    | some b => exact LitOnly.bind (litOnly_filterMapM f hf l) (fun _ _ => (Clean.pure _).litOnly)
+
+theorem clean_mapM {α β} (f : α → Outcome β) (hf : ∀ x, Clean (f x)) :
+    ∀ (l : List α), Clean (l.mapM f)
+  | [] => by rw [List.mapM_nil]; exact Clean.pure _
+  | a :: l => by
+    rw [List.mapM_cons]
+    exact Clean.bind (hf a) (fun _ _ => Clean.bind (clean_mapM f hf l) (fun _ _ => Clean.pure _))
+
+theorem literalOk_litOnly (s : Schema) : ∀ (fuel : Nat) (v : Value) (ty : TypeId), LitOnly (literalOk s fuel v ty) := by
+  intro fuel
+  induction fuel with
+  | zero =>
+    intro v ty w h
+    simp only [literalOk, Except.error.injEq, Err.unmodelled.injEq] at h
+    exact h.symm
+  | succ n ih =>
+    intro v ty
+    cases v with
+    | var x => simp only [literalOk]; exact (Clean.panic _).litOnly
+    | null => simp only [literalOk]; exact (Clean.panic _).litOnly
+    | list xs => simp only [literalOk]; exact litOnly_forM _ (fun x => ih x ty) xs
+    | obj kvs =>
+      simp only [literalOk]
+      split
+      · exact (Clean.pure _).litOnly
+      · refine LitOnly.bind (clean_getInput _ _).litOnly (fun i _ => ?_)
+        apply litOnly_forM
+        rintro ⟨fname, fty⟩
+        simp only []
+        split
+        · exact ih _ _
+        · exact (Clean.pure _).litOnly
+    | int x => simp only [literalOk]; exact (Clean.pure _).litOnly
+    | float x => simp only [literalOk]; exact (Clean.pure _).litOnly
+    | str x => simp only [literalOk]; exact (Clean.pure _).litOnly
+    | bool x => simp only [literalOk]; exact (Clean.pure _).litOnly
+    | «enum» x => simp only [literalOk]; exact (Clean.pure _).litOnly
+
+theorem clean_collectSel (s : Schema) (q : Query) : ∀ (fuel : Nat) (u : UsedTypes) (x : Sel),
+    Clean (collectSel s q fuel u x) := by
+  intro fuel
+  induction fuel with
+  | zero => intro u x; simp only [collectSel]; exact Clean.pure _
+  | succ n ih =>
+    intro u x
+    cases x with
+    | typename => simp only [collectSel]; exact Clean.pure _
+    | field a fid sub =>
+      rw [collectSel.eq_2]
+      exact Clean.bind (clean_getField _ _) (fun _ _ => clean_foldlM _ ih _ _)
+    | inline t sub => rw [collectSel.eq_3]; exact clean_foldlM _ ih _ _
+    | spread g =>
+      rw [collectSel.eq_4]
+      split
+      · exact Clean.pure _
+      · exact Clean.bind (clean_getFragment _ _) (fun _ _ => clean_foldlM _ ih _ _)
+
+theorem clean_usedInputIds (s : Schema) : ∀ (fuel : Nat) (u : UsedTypes) (i : StoredInput),
+    Clean (usedInputIds s fuel u i) := by
+  intro fuel
+  induction fuel with
+  | zero => intro u i; simp only [usedInputIds]; exact Clean.pure _
+  | succ n ih =>
+    intro u i
+    rw [usedInputIds.eq_2]
+    apply clean_foldlM
+    rintro b ⟨fname, ty⟩
+    simp only []
+    split
+    · split
+      · exact Clean.pure _
+      · exact Clean.bind (clean_getInput _ _) (fun _ _ => ih _ _)
+    all_goals exact Clean.pure _
+
+theorem clean_allUsedTypes (s : Schema) (q : Query) (op : Nat) : Clean (allUsedTypes s q op) := by
+  unfold allUsedTypes
+  refine Clean.bind ?_ (fun o _ => Clean.bind (clean_foldlM _ (clean_collectSel s q _) _ _)
+    (fun u _ => clean_foldlM _ ?_ _ _))
+  · unfold Query.getOperation; split <;> first | exact Clean.pure _ | exact Clean.panic _
+  · intro b v
+    unfold collectVar
+    split
+    · exact Clean.bind (clean_getInput _ _) (fun _ _ => clean_usedInputIds _ _ _ _)
+    all_goals exact Clean.pure _
+
+theorem clean_inputItem (c : Ctx) (i : StoredInput) : Clean (inputItem c i) := by
+  have hft : ∀ ty quals, Clean (inputFieldType c ty quals) := by
+    intro ty quals
+    unfold inputFieldType
+    exact Clean.bind (clean_typeName _ _) (fun _ _ => Clean.bind (clean_decorateType _ _) (fun _ _ => Clean.pure _))
+  rw [inputItem.eq_1]
+  split
+  · refine Clean.bind (clean_mapM _ ?_ _) (fun _ _ => Clean.pure _)
+    rintro ⟨fname, ty⟩
+    exact Clean.bind (hft _ _) (fun _ _ => Clean.pure _)
+  · refine Clean.bind (clean_mapM _ ?_ _) (fun _ _ => Clean.pure _)
+    rintro ⟨fname, ty⟩
+    exact Clean.bind (hft _ _) (fun _ _ => Clean.pure _)
+
+theorem litOnly_variablesItems (c : Ctx) (op : Nat) : LitOnly (variablesItems c op) := by
+  have hvt : ∀ v, Clean (variableType c v) := by
+    intro v
+    unfold variableType
+    exact Clean.bind (clean_typeName _ _) (fun _ _ => clean_decorateType _ _)
+  unfold variablesItems
+  simp only []
+  split
+  · exact (Clean.pure _).litOnly
+  · refine LitOnly.bind (clean_mapM _ ?_ _).litOnly (fun _ _ => LitOnly.bind (litOnly_filterMapM _ ?_ _)
+      (fun _ _ => (Clean.pure _).litOnly))
+    · intro v
+      exact Clean.bind (hvt v) (fun _ _ => Clean.pure _)
+    · intro v
+      split
+      · exact (Clean.pure _).litOnly
+      · exact LitOnly.bind (hvt v).litOnly (fun _ _ => LitOnly.bind (literalOk_litOnly _ _ _ _)
+          (fun _ _ => (Clean.pure _).litOnly))
+
+/-- **C17, module level**: whatever the schema, query, operation and options, the only fuel that
+    `responseForQuery` can exhaust is the nesting bound (64) of default-value literals — a bound of the
+    model, not of the code.  All walks that mirror guarded recursions of the code (`collect_used_types`,
+    `used_input_ids_recursive`, `calculate_selection`) always have enough fuel. -/
+theorem responseForQuery_fuel (c : Ctx) (op : Nat) :
+    ∀ w, responseForQuery c op = .error (.unmodelled w) → w = "literal fuel" := by
+  unfold responseForQuery
+  refine LitOnly.bind (clean_allUsedTypes _ _ _).litOnly (fun u _ => ?_)
+  refine LitOnly.bind (Clean.litOnly ?_) (fun scalars _ => ?_)
+  · unfold scalarItems
+    exact Clean.bind (clean_mapM _ (clean_getScalar _) _) (fun _ _ => Clean.pure _)
+  refine LitOnly.bind (Clean.litOnly ?_) (fun enums _ => ?_)
+  · unfold enumItems
+    exact Clean.bind (clean_mapM _ (clean_getEnum _) _) (fun _ _ => Clean.pure _)
+  refine LitOnly.bind (clean_mapM _ (fragmentItems_fuel_sufficient c) _).litOnly (fun frags _ => ?_)
+  refine LitOnly.bind (Clean.litOnly ?_) (fun inputs _ => ?_)
+  · unfold inputItems
+    apply clean_mapM
+    rintro ⟨i, _⟩
+    exact clean_inputItem c i
+  refine LitOnly.bind (litOnly_variablesItems c op) (fun vars _ => ?_)
+  refine LitOnly.bind (Clean.litOnly ?_) (fun o ho => ?_)
+  · unfold Query.getOperation; split <;> first | exact Clean.pure _ | exact Clean.panic _
+  have hmem : o ∈ c.q.operations := List.mem_of_getElem? (getOperation_ok ho)
+  exact LitOnly.bind (Clean.litOnly (responseItems_fuel_sufficient c o hmem)) (fun _ _ => (Clean.pure _).litOnly)
 
 
 
